@@ -46,7 +46,7 @@ def bounds(tier):
 
 def plan(tier, seed):
     n = NSHARD[tier]
-    return [{"part": "gaf", "shard": i, "of": n} for i in range(n)] + [{"part": "graph"}, {"part": "big"}]
+    return [{"part": "gaf", "shard": i, "of": n} for i in range(n)] + [{"part": "graph"}, {"part": "big"}, {"part": "tail"}, {"part": "side"}]
 
 
 # ----------------------------------------------------------------------------------------------
@@ -114,7 +114,9 @@ def run_gaf_side(scratch, variant, tag):
         P = type("P", (), {})()
         P.gaf_path, P.gfa_path, P.scratch = gaf, gfa, d
         o, lines = c04.run_view(P)
-        out[f"view[{kind}]"] = (o.kind, lines)
+        vo = os.path.join(d, "view.out")
+        # the bytes written, not only the lines: an unterminated last line glues records together when outputs are concatenated
+        out[f"view[{kind}]"] = (o.kind, lines, open(vo).read().endswith("\n") if lines and os.path.exists(vo) else None)
         fmt = "stable" if kind == "unstable" else "unstable"
         o, lines = c04.run_view(P, fmt=fmt)
         out[f"view -f[{kind}]"] = (o.kind, lines)
@@ -196,6 +198,14 @@ def gaf_part(res, spec, tier, scratch):
         if len(v[1]) >= 1:
             res.nt(fw.h64(["gaf", v]))
         compare(res, base, got, f"BGZF layout cuts={v[1]} empty_after={v[2]} eof={v[3]}", {"part": "gaf", "variant": list(v)})
+    if spec["shard"] == 1 % spec["of"]:
+        # the same files without a newline after the last record, plain against compressed
+        base_n = run_gaf_side(scratch, ("plain-nonl",), "nonl")
+        for v in variants[:: max(1, len(variants) // 6)][:6]:
+            got = run_gaf_side(scratch, (v[0] + "-nonl",) + tuple(v[1:]), "nonl")
+            res.count("bgzf_layouts_without_final_newline")
+            res.nt(fw.h64(["gaf-nonl", v]))
+            compare(res, base_n, got, f"last line not newline terminated, BGZF layout cuts={v[1]} empty_after={v[2]} eof={v[3]}", {"part": "gaf", "variant": [v[0] + "-nonl"] + list(v[1:])})
     if spec["shard"] == 0:
         res.sample({"gaf": text.split("\n")[:-1], "bgzf_layout_example": list(variants[min(7, len(variants) - 1)]), "compared": sorted(base)[:12] + ["..."]})
 
@@ -230,6 +240,65 @@ def big_part(res, scratch):
         compare(res, base, got, f"2.6 MB file of 65,001-byte records, {v[0]}", {"part": "big", "variant": list(v), "aligned": "2.6MB"})
 
 
+def tail_part(res, scratch):
+    base = run_gaf_side_padded(scratch, ("plain",), "tplain", aligned="tail")
+    for v in (("bgzip64k",), ("pysam",)):
+        got = run_gaf_side_padded(scratch, v, "t" + v[0], aligned="tail")
+        res.nt(fw.h64(["tail", v]))
+        res.count("files_of_20x64KiB_plus_331_bytes")
+        compare(res, base, got, f"file of 20 x 64 KiB + 331 bytes, {v[0]}", {"part": "big", "variant": list(v), "aligned": "tail"})
+
+
+def side_by_side_part(res, scratch):
+    """x.gaf and x.gaf.gz next to each other, indexed and viewed with the *default* index paths (no -o / -i), in both
+    orders: what is found for each file must be what is found when it is alone in its directory"""
+    from gaftools.cli import index, view
+
+    g, urecs, srecs = view_dataset()
+    recs = vi.pad_records(urecs, 150_000)
+    text = "".join(r.line() + "\n" for r in recs)
+
+    def queries(d, gaf):
+        out = {}
+        for n in g.segs:
+            outp = os.path.join(d, "v.out")
+            if os.path.exists(outp):
+                os.remove(outp)
+            o = fw.guarded(view.run, gaf_path=gaf, output=outp, nodes=[n], _trigger_s=1.0, _budget=300_000)
+            out[n] = (o.kind if o.kind != "cle" else "nothing-found", open(outp).read().split("\n") if os.path.exists(outp) and o.kind == "ok" else None)
+        return out
+
+    def setup(d):
+        os.makedirs(d, exist_ok=True)
+        gfa = os.path.join(d, "g.gfa")
+        fw.write_text(gfa, g.text())
+        return gfa
+
+    alone = {}
+    for name, variant in (("x.gaf", ("plain",)), ("x.gaf.gz", ("bgzip64k",))):
+        d = os.path.join(scratch, "alone-" + name)
+        gfa = setup(d)
+        gaf = vi.write_gaf(os.path.join(d, name), text, variant)
+        o = fw.guarded(index.run, gaf_path=gaf, gfa_path=gfa, output=None)
+        alone[name] = (o.kind, queries(d, gaf) if o.kind == "ok" else o.sig())
+    if alone["x.gaf"] != alone["x.gaf.gz"]:
+        res.fail("C17/view-n-default-index-differs", f"default index path, each file alone: plain {str(alone['x.gaf'])[:150]} vs compressed {str(alone['x.gaf.gz'])[:150]}", {"part": "side"})
+    for order in (("x.gaf", "x.gaf.gz"), ("x.gaf.gz", "x.gaf")):
+        d = os.path.join(scratch, "both-" + order[0])
+        gfa = setup(d)
+        paths = {"x.gaf": vi.write_gaf(os.path.join(d, "x.gaf"), text, ("plain",)), "x.gaf.gz": vi.write_gaf(os.path.join(d, "x.gaf.gz"), text, ("bgzip64k",))}
+        kinds = [fw.guarded(index.run, gaf_path=paths[n], gfa_path=gfa, output=None).kind for n in order]
+        for n in order:
+            res.evaluations += 1
+            res.nt(fw.h64(["side", order, n]))
+            res.count("side_by_side_default_index_queries", len(g.segs))
+            got = (kinds[order.index(n)], queries(d, paths[n]))
+            if got != alone[n]:
+                bad = [k for k in got[1] if alone[n][1].get(k) != got[1][k]] if isinstance(alone[n][1], dict) else []
+                res.fail("C17/view-n-side-by-side-differs", f"{order[0]} indexed first, then {order[1]} (default index paths), view -n on {n}: nodes {bad[:4]} give {str([got[1][k][0] for k in bad[:4]])} instead of what the file gives when it is alone in its directory",
+                         {"part": "side"})
+
+
 def pad_exact(recs, n, size=65536):
     """n records (cycling through recs) whose lines are exactly `size` bytes long including the newline, so that the
     line ends fall on every multiple of 64 KiB: a reader that works in power-of-two chunks meets a chunk boundary
@@ -245,12 +314,27 @@ def pad_exact(recs, n, size=65536):
     return out
 
 
+def pad_tail(recs, n, tail):
+    """n records of exactly 64 KiB followed by one short record, the file being n * 65536 + tail bytes long (tail small:
+    what is left over after the last full power-of-two chunk is smaller than any buffer)"""
+    out = pad_exact(recs, n)
+    r = recs[n % len(recs)]
+    last = rgfa.Rec(f"{r.qname}x{n}", *r.cols()[1:], opt=list(r.opt))
+    need = tail - 1 - len(last.line()) - len("\tzz:Z:")
+    assert need >= 0, (tail, len(last.line()))
+    last.opt = list(last.opt) + ["zz:Z:" + gen._seq(need, n)]
+    assert len(last.line()) + 1 == tail
+    return out + [last]
+
+
 def run_gaf_side_padded(scratch, variant, tag, aligned=False):
     global view_dataset, sort_dataset
     vd, sd = view_dataset, sort_dataset
 
     def vd2():
         g, u, s_ = vd()
+        if aligned == "tail":
+            return g, pad_tail(u, 20, 331), pad_tail(s_, 20, 331)
         if aligned == "2.6MB":
             # 41 records of 65,001 bytes: lines straddle every power-of-two mark up to 2 MiB
             return g, pad_exact(u, 41, 65_001), pad_exact(s_, 41, 65_001)
@@ -260,6 +344,8 @@ def run_gaf_side_padded(scratch, variant, tag, aligned=False):
 
     def sd2():
         g, r = sd()
+        if aligned == "tail":
+            return g, pad_tail(r, 20, 331)
         if aligned == "2.6MB":
             return g, pad_exact(r, 41, 65_001)
         if aligned:
@@ -384,6 +470,10 @@ def run_shard(spec, tier, scratch):
         gaf_part(res, spec, tier, scratch)
     elif spec["part"] == "graph":
         graph_part(res, scratch)
+    elif spec["part"] == "tail":
+        tail_part(res, scratch)
+    elif spec["part"] == "side":
+        side_by_side_part(res, scratch)
     else:
         big_part(res, scratch)
     return res
@@ -393,6 +483,9 @@ def replay(case, scratch):
     res = fw.ShardResult()
     if case["part"] == "graph":
         graph_part(res, scratch)
+    elif case["part"] == "side":
+        side_by_side_part(res, scratch)
+        return res.failures
     elif case["part"] == "big":
         base = run_gaf_side_padded(scratch, ("plain",), "bplain", aligned=case.get("aligned") or False)
         v = tuple(case["variant"])
@@ -400,8 +493,8 @@ def replay(case, scratch):
         compare(res, base, got, f">64 KiB file, {v[0]}", {"part": "big", "variant": list(v)})
     else:
         v = case["variant"]
-        variant = ("bgzf", v[1], v[2], v[3])
-        base = run_gaf_side(scratch, ("plain",), "same")
+        variant = (v[0], v[1], v[2], v[3])
+        base = run_gaf_side(scratch, ("plain-nonl",) if v[0].endswith("-nonl") else ("plain",), "same")
         got = run_gaf_side(scratch, variant, "same")
         compare(res, base, got, f"BGZF layout {v[1:]}", {"part": "gaf", "variant": list(v)})
     item = case.get("item")
